@@ -30,6 +30,16 @@ class Grammar(qc.QGrammar):
             P.source(s, typ, tq, flags=2 if (b >> 4) % 4 else 0, hwork=[0, 60, 301, 1500][(b >> 6) % 4], selfmerge=[0, 0, 0, 5][h[13 + s] % 4])
             P.features.add("type=%d" % typ)
             P.features.add("target=%s" % {0: "serial", 1: "concurrent", 2: "global", -1: "NULL"}[tq])
+        # the non-re-entrancy clause speaks of ANY source: half of the programs carry one more source of another type (its events are
+        # produced by peers: pipe writes, pipe drains, raised signals, timer ticks) on a queue that would allow concurrency
+        P.extra_src = None
+        if h[17] % 2:
+            typ = [sc.T_READ, sc.T_WRITE, sc.T_SIGNAL, sc.T_TIMER][(h[17] >> 1) % 4]
+            tq = [1, 2, -1, 0][(h[17] >> 3) % 4]
+            P.source(nsrc, typ, tq, flags=2 | 1, hwork=[60, 301, 1500][(h[17] >> 5) % 3], a=20000, b=100000 if typ == sc.T_TIMER else 0, c=0)
+            P.extra_src = nsrc
+            P.features.add("extra-source-type=%d" % typ)
+            nsrc += 1
         P.nsrc = nsrc
         P.nthreads = len(threads)
         mask = h[-1] | (h[-2] << 8)
@@ -42,6 +52,10 @@ class Grammar(qc.QGrammar):
     def emit_s(self, P, ctx, kind, a, b, c):
         s = a % P.nsrc
         typ = P.sources[s]["type"]
+        if s == P.extra_src and kind in ("merge", "item_merge"):
+            if typ == sc.T_TIMER:
+                return P.op(ctx, "sleep", a=[30, 120][b % 2])
+            return P.op(ctx, "pwrite", a=s, b=[1, 7, 64, 300][b % 4] if typ == sc.T_READ else [512, 2048, 4096, 2048][b % 4], src=s, thread=ctx)
         vals = ADD_VALUES if typ == sc.T_ADD else OR_VALUES if typ == sc.T_OR else REP_VALUES
         if kind == "merge":
             return P.op(ctx, "merge", a=s, b=vals[b % len(vals)], src=s, thread=ctx)
@@ -59,7 +73,11 @@ class Grammar(qc.QGrammar):
             P.open_tokens.append((t, s))
             o = P.op(ctx, "suspend", a=s, b=t, src=s, thread=ctx)
             if b % 3 == 0:
-                P.op(ctx, "merge", a=s, b=vals[c % len(vals)], src=s, thread=ctx)     # a merge while (certainly) suspended
+                if s == P.extra_src:        # an event while (certainly) suspended (dispatch_source_merge_data is only legal on data sources)
+                    if typ != sc.T_TIMER:
+                        P.op(ctx, "pwrite", a=s, b=[64, 2048][c % 2] if typ == sc.T_READ else 2048, src=s, thread=ctx)
+                else:
+                    P.op(ctx, "merge", a=s, b=vals[c % len(vals)], src=s, thread=ctx)     # a merge while (certainly) suspended
                 P.op(ctx, "resume", a=s, b=t, src=s, thread=ctx)
             return o
         if kind == "resume":
@@ -142,13 +160,13 @@ class Check(sc.SCheck):
             "large and wrapping values, suspend/resume the source around merges (tokens; unclaimed resumes and activations are issued by the harness when the program "
             "stalls). After the scripts the harness blocks until the totals converge (ADD/OR) or until a final sentinel merge is delivered (REPLACE), so a lost wake-up "
             "ends in a stuck witness. Oracles: ADD sums agree mod 2^64, OR unions agree, every REPLACE delivery was merged and the sentinel is delivered last, no delivery "
-            "is 0, handler invocations of one source never overlap (one-sided stamps). Non-trivial: some merge's [call,return] overlapped a handler's [start,end]; "
+            "is 0, handler invocations of one source never overlap (one-sided stamps) - half of the programs also carry a READ, WRITE, SIGNAL or TIMER source on a concurrent / global / NULL / serial target queue whose events are produced by peers, for that clause. Non-trivial: some merge's [call,return] overlapped a handler's [start,end]; "
             "distinct = distinct program texts.")
     assumptions = ["one-sided stamp logic (DESIGN S2)", "liveness only via the stuck witness"]
     G = Grammar()
 
     def recipe_strategy(self, tier):
-        return qc.recipe_strategy(max_threads=4, max_ops=20 if tier == "quick" else 60, max_bodies=0, body_len=0, header=17, min_ops=5)
+        return qc.recipe_strategy(max_threads=4, max_ops=20 if tier == "quick" else 60, max_bodies=0, body_len=0, header=20, min_ops=5)
 
     def compile(self, recipe, kind="F1", cpu=0, tier="quick"):
         return self.G.compile(recipe, kind, cpu, tier)
